@@ -4,6 +4,7 @@ import KoordVerif.Model.C07Hist
 import KoordVerif.Model.C07RO
 import KoordVerif.Model.C07Shape
 import KoordVerif.Model.C07Glue
+import KoordVerif.Model.C07Fill
 /-
 Driver for C07.  One case = one history on one node; three device types (0 gpu, 1 rdma, 2 fpga),
 three resource dimensions per type.  A resource list is 3 tokens, `_` = key absent.
@@ -297,6 +298,9 @@ def cycViewHyp (s : TState) (c : PState) (pre : DevRes := []) : List String :=
     let fd := calcFree s pre (des.getD [])
     if nodupB (fd.map (·.1)) && amountsOK fd then [] else ["viewhyp 0"]
 
+/-- memoryBytesToRatio: `int64(float64(bytes) / float64(total) * 100)` (Lean Float = Go float64) -/
+def b2rFloat (b tot : Int) : Int := (Float.ofInt b / Float.ofInt tot * 100.0).toInt64.toInt
+
 def runLine (d : DState) (line : String) : DState × List String :=
   let n := d.node
   match toks line with
@@ -559,6 +563,15 @@ def runLine (d : DState) (line : String) : DState × List String :=
       | some (m, u) =>
         let d' := applyRo d (.restore m u)
         (d', dump d'.node ++ [flagLine d'] ++ (match d'.cyc.restored with | some r => restoredLines r | none => []))
+      | none => (d, ["bad-op"])
+    else if kind = "fill" then
+      -- extension 6: fillGPUTotalMem on the allocator's answer `ms` x per-GPU request, on the GPU ledger of this moment
+      match (do let ms ← pNats; let req ← pRL; pEnd; pure (ms, req)).run' rest with
+      | some (ms, req) =>
+        let s := nodeGet n 0
+        match fillGPU b2rFloat s.total (ms.map (fun m => (m, req))) with
+        | none => (d, ["fill err"])
+        | some out => (d, [s!"fill {out.length}" ++ String.join (out.map (fun e => s!" {e.1} " ++ " ".intercalate ((List.range dims).map (fun k => showQ (rlAt e.2 k)))))])
       | none => (d, ["bad-op"])
     else if kind = "rofil" then
       match (do let hm ← pBool; let ms ← pNats; let desired ← pNat; let req ← pRL; pEnd; pure (hm, ms, desired, req)).run' rest with
